@@ -21,15 +21,15 @@ SPEC = {
         "the bloom-filter writer receives the split characters engine/index/index.go NewIndexWriters would pass: \"\" for an index created by DDL, the content splitter otherwise (both generated)",
     ],
     "campaigns": [
-        {"name": "pk_atom", "run": "^TestPKAtom$", "quick": B(6000, 2), "thorough": B(250000, 2, 3000)},
-        {"name": "pk_and", "run": "^TestPKAnd$", "quick": B(6000, 2), "thorough": B(250000, 2, 3000)},
-        {"name": "pk_andor", "run": "^TestPKAndOr$", "quick": B(6000, 2), "thorough": B(250000, 2, 3000)},
-        {"name": "pk_full", "run": "^TestPKFull$", "quick": B(5000, 3), "thorough": B(200000, 3, 3000)},
-        {"name": "pk_nulls", "run": "^TestPKNulls$", "quick": B(4000, 1), "thorough": B(200000, 1, 3000)},
-        {"name": "pk_coerce", "run": "^TestPKCoerce$", "quick": B(4000, 1), "thorough": B(200000, 1, 3000)},
-        {"name": "pk_strmatch", "run": "^TestPKStrMatch$", "quick": B(4000, 1), "thorough": B(200000, 1, 3000)},
-        {"name": "sk_minmax", "run": "^TestSKMinMax$", "quick": B(6000, 1), "thorough": B(300000, 1, 3000)},
-        {"name": "sk_bloom", "run": "^TestSKBloom$", "quick": B(1200, 2), "thorough": B(60000, 2, 3000)},
+        {"name": "pk_atom", "run": "^TestPKAtom$", "quick": B(12000, 2), "thorough": B(250000, 2, 3000)},
+        {"name": "pk_and", "run": "^TestPKAnd$", "quick": B(12000, 2), "thorough": B(250000, 2, 3000)},
+        {"name": "pk_andor", "run": "^TestPKAndOr$", "quick": B(12000, 2), "thorough": B(250000, 2, 3000)},
+        {"name": "pk_full", "run": "^TestPKFull$", "quick": B(10000, 3), "thorough": B(200000, 3, 3000)},
+        {"name": "pk_nulls", "run": "^TestPKNulls$", "quick": B(8000, 1), "thorough": B(200000, 1, 3000)},
+        {"name": "pk_coerce", "run": "^TestPKCoerce$", "quick": B(8000, 1), "thorough": B(200000, 1, 3000)},
+        {"name": "pk_strmatch", "run": "^TestPKStrMatch$", "quick": B(8000, 1), "thorough": B(200000, 1, 3000)},
+        {"name": "sk_minmax", "run": "^TestSKMinMax$", "quick": B(12000, 1), "thorough": B(300000, 1, 3000)},
+        {"name": "sk_bloom", "run": "^TestSKBloom$", "quick": B(2400, 2), "thorough": B(60000, 2, 3000)},
     ],
 }
 
